@@ -139,6 +139,11 @@ func setupProfile(e *Env, o core.RunOpts) error {
 		return setupFeeds(e, o)
 	case "C08", "C17":
 		return setupTunnel(e, o)
+	case "C11":
+		if e.Ch.Bool("cfg.c11.transition", 200) {
+			return setupTransition(e, o)
+		}
+		return setupTunnel(e, o)
 	case "C04", "C18":
 		return setupTransition(e, o)
 	case "C09":
@@ -325,7 +330,7 @@ func setupTransition(e *Env, o core.RunOpts) error {
 		dkg,
 		&TSSActor{Pool: pool, ByzP: e.Ch.Intn("cfg.tss.byz", 150), ReactP: 300, OverDEP: 0},
 		&SigRequester{Rate: 100 + e.Ch.Intn("cfg.sigreq.rate", 400), MaxOpen: 1 + e.Ch.Intn("cfg.sigreq.maxopen", 4), Senders: w.Users[poolSize:], LimitW: []int{85, 5, 5, 5}, RollbackP: 30})
-	e.Monitors = append(e.Monitors, &C04{}, &C18{}, &C05{}, &C03{}, &C10{}, &C09{WithTSS: true}, &C13{WithTSS: true})
+	e.Monitors = append(e.Monitors, &C04{}, &C18{}, &C05{}, &C03{}, &C10{}, &C09{WithTSS: true}, &C13{WithTSS: true}, &C11{})
 	e.MaxSteps = e.Ch.Range("cfg.steps", 60, 150)
 	if o.Thorough {
 		e.MaxSteps = e.Ch.Range("cfg.steps", 80, 260)
@@ -462,13 +467,17 @@ func setupTunnel(e *Env, o core.RunOpts) error {
 		lazy[v.Val.String()] = []int{0, 0, 100}[e.Ch.Intn("cfg.feeder.lazy", 3)]
 	}
 	e.Actors = append(e.Actors,
-		&OracleActor{MaxOpen: 1, ReqRate: 0, Scripts: []int{scriptEcho}, NumDS: len(dss), ActivateP: 1000, ReactivateP: 300},
+		&OracleActor{MaxOpen: 3, ReqRate: map[bool]int{true: 250, false: 0}[o.Prop == "C11"], Scripts: []int{scriptEcho, scriptSimple}, NumDS: len(dss), ActivateP: 1000, ReactivateP: 300,
+			TSSEncoder: true, Requesters: voters, PolicyW: []int{70, 20, 10, 0, 0, 0, 0}},
 		&StakeActor{Voters: voters, Rate: 0, Denoms: []string{"uusd"}, VaultKeys: []string{"vaultA"}},
 		&VoteActor{Voters: voters, Signals: signals[:4+e.Ch.Intn("cfg.tunnel.nsignals", 3)], Rate: 150 + e.Ch.Intn("cfg.vote.rate", 300)},
 		&FeederActor{Lazy: lazy, ByzP: 20, SkewP: 0},
 		&TSSActor{Pool: pool, ByzP: 0, ReactP: 300, OverDEP: 0},
 		&TunnelActor{Users: tunnelUsers, Signals: signals, Params: tup, Rate: 350 + e.Ch.Intn("cfg.tunnel.rate", 500), MaxTunnels: 1 + e.Ch.Intn("cfg.tunnel.max", 4)})
-	e.Monitors = append(e.Monitors, &C08{}, &C17{}, &C06{}, &C07{}, &C05{}, &C10{}, &C09{WithTSS: true})
+	if o.Prop == "C11" {
+		e.Actors = append(e.Actors, &SigRequester{Rate: 200 + e.Ch.Intn("cfg.sigreq.rate", 400), MaxOpen: 4, Senders: voters, LimitW: []int{100, 0, 0, 0}, RichContent: true, Signals: signals})
+	}
+	e.Monitors = append(e.Monitors, &C08{}, &C17{}, &C06{}, &C07{}, &C05{}, &C10{}, &C09{WithTSS: true}, &C11{})
 	e.MaxSteps = e.Ch.Range("cfg.steps", 50, 120)
 	if o.Thorough {
 		e.MaxSteps = e.Ch.Range("cfg.steps", 70, 240)
